@@ -531,11 +531,24 @@ Lemma ts_acceptable_inv c now tok f :
   parse tok = Some f -> ts_acceptable c now [tok] = true -> (Z.abs (now - digits_val (f_ts f)) <= c_skew c)%Z.
 Proof. unfold ts_acceptable. intros ->. lia. Qed.
 
+Lemma same_proof_inv tok hd f : same_proof [tok] hd = true -> parse tok = Some f ->
+  exists tok' f', hd = [tok'] /\ parse tok' = Some f'
+    /\ f_kid f' = f_kid f /\ f_ts f' = f_ts f /\ f_nonce f' = f_nonce f /\ b64dec (f_mac f') = b64dec (f_mac f).
+Proof.
+  unfold same_proof. destruct hd as [|tb [|x hd]]; try discriminate. intros H Pp. rewrite Pp in H.
+  destruct (parse tb) as [fb|] eqn:Pb; [|discriminate].
+  do 3 (apply andb_true_iff in H as [H ?]).
+  repeat match goal with E : beqb _ _ = true |- _ => apply beqb_eq in E end.
+  exists tb, fb. repeat split; auto.
+Qed.
+Lemma same_proof_refl tok f : parse tok = Some f -> same_proof [tok] [tok] = true.
+Proof. unfold same_proof. intros ->. now rewrite !beqb_refl. Qed.
+
 Lemma no_replay_l hmac c st ri mid rj l k :
   c_nocache c = false -> (0 <= c_skew c <= max_skew)%Z ->
   monotone (ri :: mid ++ [rj]) = true -> sane_req ri = true -> sane_req rj = true -> same_second rj = true ->
   fst (fst (step hmac ttl_ns c st ri)) = VOk l k ->
-  r_hdrs rj = r_hdrs ri ->
+  same_proof (r_hdrs ri) (r_hdrs rj) = true ->
   ts_acceptable c (unix_s (r_tv rj)) (r_hdrs rj) = true ->
   let st_i := snd (step hmac ttl_ns c st ri) in
   (count_ok (run hmac ttl_ns c st_i mid) < eff_cap c)%Z ->
@@ -554,7 +567,8 @@ Proof.
     apply (precheck_inr hmac ttl_ns) in P as [secret (Pp & Pl & Pt & Pw & Pm)].
     pose proof (digits_val_nonneg (f_ts f)) as Dn.
     apply window_iff in Pw; [|apply sane_req_inv; exact Si | lia].
-    rewrite Hh, Hhi in Hacc. apply (ts_acceptable_inv _ _ _ _ Pp) in Hacc.
+    rewrite Hhi in Hh. destruct (same_proof_inv _ _ _ Hh Pp) as (tok' & f' & Hhj & Pp' & Ek & Et & En & _).
+    rewrite Hhj in Hacc. apply (ts_acceptable_inv _ _ _ _ Pp') in Hacc. rewrite Et in Hacc.
     remember (r_tc ri + ttl_ns (c_skew c))%Z as e eqn:He.
     assert (Hj : (r_tc rj < e)%Z).
     { subst e. apply (expiry_bound (c_skew c) (r_tv ri) (r_tc ri) (r_tv rj) (r_tc rj) (digits_val (f_ts f))); auto.
@@ -565,7 +579,7 @@ Proof.
     assert (Fm : Forall (fun r => (r_tc r < e)%Z) mid).
     { eapply Forall_impl; [|apply (mid_bound rj mid Hmono)]. cbn. intros a Ha. lia. }
     specialize (R Fm ltac:(lia)).
-    eapply (step_replay_refused hmac ttl_ns c _ rj (f_nonce f) e _ tok f Nc Hj R); [congruence | exact Pp | reflexivity].
+    eapply (step_replay_refused hmac ttl_ns c _ rj (f_nonce f) e _ tok' f' Nc Hj R); [exact Hhj | exact Pp' | exact En].
 Qed.
 
 (* ================= the decidable spec holds of the model ================================== *)
@@ -598,21 +612,22 @@ Proof.
   intros Nc Pp Hn B. induction rt as [|r rt IH]; intros st k lo Hm Hsane Hsec Inv; [reflexivity|].
   cbn [run]. pose proof (step_out hmac ttl_ns c st r) as So.
   pose proof (step_holds hmac ttl_ns c st r n e k) as Sh.
-  pose proof (step_replay_refused hmac ttl_ns c st r n e k tok f Nc) as Sr.
+  pose proof (fun tok' f' => step_replay_refused hmac ttl_ns c st r n e k tok' f' Nc) as Sr.
   destruct (step hmac ttl_ns c st r) as [[v o] st'] eqn:S. cbn [fst snd] in *. cbn [map snd replay_scan].
   cbn [reads] in Hm. cbn [forallb] in Hsane, Hsec.
   apply andb_true_iff in Hsane as [Hs1 Hsane]. apply andb_true_iff in Hsec as [Hc1 Hsec].
   assert (Hlo : (lo <= r_tv r <= r_tc r)%Z).
   { cbn in Hm. lia. }
   apply andb_true_iff. split.
-  - destruct (list_eqb beqb (r_hdrs r) [tok] && valid_proof hmac c (unix_s (r_tv r)) [tok] && (k <? eff_cap c)%Z) eqn:C;
+  - destruct (same_proof [tok] (r_hdrs r) && valid_proof hmac c (unix_s (r_tv r)) (r_hdrs r) && (k <? eff_cap c)%Z) eqn:C;
       [|reflexivity].
     apply andb_true_iff in C as [C Ck]. apply andb_true_iff in C as [Ch Cv].
-    apply (list_eqb_eq beqb beqb_eq) in Ch.
-    apply valid_proof_inv in Cv as (f' & Pp' & Hw). rewrite Pp in Pp'. inversion Pp'; subst f'.
+    destruct (same_proof_inv _ _ _ Ch Pp) as (tok' & f' & Hh' & Pp' & Ek & Et & En & _).
+    rewrite Hh' in Cv. apply valid_proof_inv in Cv as (f'' & Pp'' & Hw). rewrite Pp' in Pp''. inversion Pp''; subst f''.
+    rewrite Et in Hw.
     assert (Hte : (r_tc r < e)%Z).
     { pose proof (unix_s_floor (r_tc r)). unfold same_second in Hc1. unfold ns_per_s in *. lia. }
-    destruct (Sr Hte (Inv ltac:(lia) ltac:(lia)) Ch Pp Hn) as [reason Hv]. subst v o.
+    destruct (Sr tok' f' Hte (Inv ltac:(lia) ltac:(lia)) Hh' Pp' (eq_trans En Hn)) as [reason Hv]. subst v o.
     destruct (admitted (c_mode c) (gate_out c (VErr reason) r)) as [[|]|] eqn:A; try reflexivity.
     apply admitted_true_vok in A as (l & kk & A). discriminate.
   - apply (IH st' _ (r_tc r)); [now apply nondecr_tail, nondecr_tail in Hm | exact Hsane | exact Hsec|].
@@ -716,7 +731,7 @@ Lemma no_replay1_l hmac c st ri mid rj l k :
   c_nocache c = false -> (0 <= c_skew c <= max_skew)%Z ->
   monotone1 (ri :: mid ++ [rj]) = true -> sane_req ri = true -> sane_req rj = true ->
   fst (fst (step hmac ttl_ns c st (norm ri))) = VOk l k ->
-  r_hdrs rj = r_hdrs ri ->
+  same_proof (r_hdrs ri) (r_hdrs rj) = true ->
   ts_acceptable c (unix_s (r_tv rj)) (r_hdrs rj) = true ->
   let st_i := snd (step hmac ttl_ns c st (norm ri)) in
   (count_ok (run hmac ttl_ns c st_i (map norm mid)) < eff_cap c)%Z ->
@@ -777,4 +792,15 @@ Proof.
   unfold gate_out. rewrite M. destruct v as [l k|reason].
   - split; [eauto|]. intros _. destruct (c_inner_nil c); [reflexivity|]. destruct (r_inner r); reflexivity.
   - cbn. split; [discriminate|]. intros (l & k & H). discriminate.
+Qed.
+
+(* a byte-identical re-presentation of a verified request is the same proof *)
+Lemma identical_same_proof_l hmac ttlf c st ri rj l k :
+  fst (fst (step hmac ttlf c st ri)) = VOk l k -> r_hdrs rj = r_hdrs ri ->
+  same_proof (r_hdrs ri) (r_hdrs rj) = true.
+Proof.
+  intros Hok ->. unfold step in Hok.
+  destruct (verify_request_cases hmac ttlf c st ri) as [[reason E]|(tok & f & label & Hh & _ & _ & P & _)].
+  - rewrite E in Hok. discriminate.
+  - apply (precheck_inr hmac ttlf) in P as [secret (Pp & _)]. rewrite Hh. eapply same_proof_refl. exact Pp.
 Qed.
